@@ -77,6 +77,8 @@ type config struct {
 	PublicationExempt []pubExempt `json:"publication_exempt"`
 	// reviewed path conditions: the function returns at once unless the listed types are still unpublished
 	OnceGuards []onceGuard `json:"once_guards"`
+	// function -> why its close(ch) runs at most once per channel (reviewed)
+	CloseOnce map[string]string `json:"close_once"`
 	// packages (import paths) that are not part of the server: not loaded as roots
 	ExcludePackages []string `json:"exclude_packages"`
 }
